@@ -196,3 +196,21 @@ Definition check_twin (c : twin_case) : N :=
   | RErr _, RErr _ => 1%N
   | _, _ => 0%N
   end.
+
+(* twins whose persona NAMES differ as well (C13: names are carried through to the listing but must not influence the problem): the same
+   comparison without the participants' names and the hidden participants' names *)
+Definition rpart_eqb_nn (a b : rpart) : bool := (rp_dbid a =? rp_dbid b)%Z && list_eqb pair_nn_eqb (rp_choices a) (rp_choices b).
+Definition rcourse_eqb_nn (a b : rcourse) : bool :=
+  (rc_dbid a =? rc_dbid b)%Z && String.eqb (rc_name a) (rc_name b) && (rc_min a =? rc_min b)%Z && (rc_max a =? rc_max b)%Z &&
+  list_eqb Nat.eqb (rc_instr a) (rc_instr b) && Bool.eqb (rc_fixed a) (rc_fixed b) && Nat.eqb (List.length (rc_hidden a)) (List.length (rc_hidden b)) &&
+  Nat.eqb (rc_inv_instr a) (rc_inv_instr b) && Nat.eqb (rc_inv_att a) (rc_inv_att b).
+Definition check_twin_nn (c : twin_case) : N :=
+  let '(j1, j2, tr, ic, ia) := c in
+  match spec_read j1 tr ic ia None None, spec_read j2 tr ic ia None None with
+  | ROk (p1, c1, a1), ROk (p2, c2, a2) =>
+    if list_eqb rpart_eqb_nn p1 p2 && list_eqb rcourse_eqb_nn c1 c2 && (ra_event a1 =? ra_event a2)%Z && (ra_track a1 =? ra_track a2)%Z &&
+       (match ra_qual a1, ra_qual a2 with Some (n1, l1), Some (n2, l2) => Nat.eqb n1 n2 && list_eqb Nat.eqb l1 l2 | None, None => true | _, _ => false end)
+    then 3%N else 2%N
+  | RErr _, RErr _ => 1%N
+  | _, _ => 0%N
+  end.
